@@ -628,6 +628,9 @@ def run(an: Analysis, rep):
     shx = SharedRules(rep, "R09.X", "the index an instruction references is reassembled from all its EXTENDED_ARG prefixes (shared with C02's R02.6/R02.7): a table position beyond 255 misread gives a wrong entry, a wrong override and a wrong 'never referenced' list")
     rep.run(c02.jump_rules, an, SharedRules(rep, "R09.C", "every instruction that indexes a table is decoded as a reference into that table (shared with C02's R02.1 - R02.4): an opcode left out of its category "
                                                          "leaves the entry it references 'never met' - it is listed as an additional argument and every later entry gets an override"))
+    from . import c04
+    rep.run(c04.r045, an, SharedRules(rep, "R09.D", "the decoder takes the docstring from co_consts[0] whenever that is a str (shared with C04's R04.5): 'a docstring counting first' - a docstring the data "
+                                                   "does not hold is not pre-marked as used, so every constant gets an override and the docstring is listed as unreferenced"))
     from . import c11
     rep.run(c11.width_rule, an, SharedRules(rep, "R09.W", "code objects that differ only in a redundant EXTENDED_ARG prefix decode to different data (shared with C11's R11.W): decoded alike, two such "
                                                           "constants of one table count as a repeated entry and both are pinned without need"), "R11.W")
